@@ -512,7 +512,8 @@ def r_reinstall(ck: Checker, rule: str = "R-REINSTALL") -> None:
     gf = ck.repo.func(CODEGEN, "_gen_func")
     sets = [c for c in ast.walk(gf.node) if isinstance(c, ast.Call) and dotted(c.func) == "setattr"]
     what = "_gen_func installs the generated function on the class passed in (not on a base class)"
-    if len(sets) == 1 and norm(sets[0].args[0]) == gf.node.args.args[0].arg and norm(sets[0].args[1]) in ("new_f.__name__", gf.node.args.args[1].arg):
+    if len(sets) == 1 and len(sets[0].args) == 3 and norm(sets[0].args[0]) == gf.node.args.args[0].arg \
+            and norm(sets[0].args[1]) in (f"{norm(sets[0].args[2])}.__name__", gf.node.args.args[1].arg):
         ck.holds(rule, gf, sets[0], what)
     else:
         ck.violation(rule, gf, gf.node, what, construct=f"_gen_func setattr calls: {[norm(s) for s in sets]}")
